@@ -461,8 +461,26 @@ func (w *twkbWriter) writeGeometryCollection(gc GeometryCollection) error {
 		}
 		subTWKB := subWriter.formTWKB()
 		w.twkbContents = append(w.twkbContents, subTWKB...)
+		w.expandBBox(subWriter)
 	}
 	return nil
+}
+
+// expandBBox grows the bounding box to include the bounding box of the
+// coordinates written by a sub-writer (which has the same dimensions).
+func (w *twkbWriter) expandBBox(sub *twkbWriter) {
+	if !sub.bboxValid {
+		return
+	}
+	for d := 0; d < w.dimensions; d++ {
+		if !w.bboxValid || sub.bboxMin[d] < w.bboxMin[d] {
+			w.bboxMin[d] = sub.bboxMin[d]
+		}
+		if !w.bboxValid || sub.bboxMax[d] > w.bboxMax[d] {
+			w.bboxMax[d] = sub.bboxMax[d]
+		}
+	}
+	w.bboxValid = true
 }
 
 func (w *twkbWriter) writeTypeAndPrecision(kind twkbGeometryType) {
